@@ -40,6 +40,7 @@ type Result struct {
 	Files       []string
 	GoStmts     int
 	MapRanges   int
+	ReflectMaps int
 	Imports     int
 	TypeErrors  []string
 }
@@ -196,6 +197,17 @@ func rewriteStmts(f *ast.File, info *types.Info, counter *int, res *Result, need
 	}
 	ast.Inspect(f, func(n ast.Node) bool {
 		switch b := n.(type) {
+		case *ast.CallExpr:
+			// reflect.Value.MapRange / MapKeys iterate in the runtime's random map order:
+			// v.MapRange() -> simrt.MapRange(v), v.MapKeys() -> simrt.MapKeys(v)
+			if se, ok := b.Fun.(*ast.SelectorExpr); ok && len(b.Args) == 0 && (se.Sel.Name == "MapRange" || se.Sel.Name == "MapKeys") {
+				if tv, ok := info.Types[se.X]; ok && tv.Type != nil && tv.Type.String() == "reflect.Value" {
+					b.Fun = sel("simrt", se.Sel.Name)
+					b.Args = []ast.Expr{se.X}
+					res.ReflectMaps++
+					*needRT = true
+				}
+			}
 		case *ast.BlockStmt:
 			for i, s := range b.List {
 				b.List[i] = fix(s)
